@@ -115,6 +115,113 @@ def write_replay_input(rp, path):
         fh.write(rp["format"] + "\n" + rp["src"] + "\n" + "\n".join(rp["docs"]) + "\n")
 
 
+# ---- BEGIN pass widening tie for the Python chain (c11-src stream; owner: c01-widening builder) -----
+# Self-contained: own scoped harness binary (harness/c01_src.go registers c01-src and c11-src), own
+# driver verb `srcpy` (lean/Cog/Drv/SrcDenDrv.lean), theorems in the delimited block of Props/C11.lean.
+PW_THEOREMS = [
+    "Cog.Sem.C11w.C11_pass_widening_partial", "Cog.Sem.C11w.C11_pass_widening_struct_partial",
+    "Cog.Sem.C11w.C11_python_chain_exact", "Cog.Sem.C11w.C11_source_roundtrip_partial",
+    "Cog.Sem.C11w.C11_source_object_roundtrip_partial", "Cog.Sem.C11w.C11_source_agree_partial",
+    "Cog.Sem.Src.widen_py", "Cog.Sem.Src.widen_pyS", "Cog.Sem.Src.py_widen", "Cog.Sem.Src.pyDen_mono",
+]
+
+
+def pw_regen(c):
+    """the widening theorems speak about the Python (and Go) chain the code runs: regenerate Cog/Gen/Chains.lean"""
+    try:
+        from verifkit import gen_c06
+        okc, detail = gen_c06.regen()
+    except Exception as e:
+        okc, detail = False, "gen_c06.regen failed: %s" % e
+    c.oblige("Cog/Gen/Chains.lean regenerated from the CompilerPasses() of internal/jennies/* (the chains of C11_pass_widening_*)", okc, detail)
+
+
+def pw_tie(c):
+    """PlainPyS ∧ srcDen ⇒ pyDen on the REAL post-Python-chain IR (instance of C11_pass_widening_struct_partial);
+       with PlainS also ⇒ den on the REAL post-Go-chain IR (the two hypotheses of the agreement theorem)."""
+    hbw, err = build_go("verifharness", "harness", files=HARNESS_BASE + ["lab_*.go", "src_*.go", "c01_src.go"], tag="c11w")
+    c.oblige("harness (c11-src stream) builds against the repository working tree", hbw is not None, err[-3000:])
+    if hbw is None:
+        return
+    quick = c.tier == "quick"
+    n, docs, faults = (150, 10, 4) if quick else (1500, 14, 6)
+    try:
+        rows = harness(hbw, "c11-src", n=n, docs=docs, faults=faults, seed=c.seed, timeout=3600)
+    except (RuntimeError, subprocess.TimeoutExpired) as e:
+        c.oblige("c11-src stream runs", False, str(e)[-1500:])
+        return
+    replies = drv([r[0] for r in rows if r[0] != "-"])
+    it = iter(replies)
+    st = {"documents": 0, "valid": 0, "fragment_documents": 0, "fragment_valid": 0, "fragment_in_srcDen": 0,
+          "fragment_in_srcDen_and_pyDen_real": 0, "common_fragment_in_srcDen": 0,
+          "common_fragment_in_srcDen_and_den_and_pyDen_real": 0, "bad_replies": 0}
+    cases, notpy, case_line = {}, {}, {}
+    b_fail, m_fail, g_fail = [], [], []
+    for r in rows:
+        if r[0] == "-":
+            if r[1].startswith("case "):
+                case_line[r[1].split(" ")[1]] = r[1]
+            continue
+        m = next(it)
+        if r[0].startswith("defschemas "):
+            st["bad_replies"] += int(m != "ok")
+            continue
+        if not m.startswith("plainPyS="):
+            st["bad_replies"] += 1
+            continue
+        d = dict(kv.split("=", 1) for kv in m.split(" "))
+        cid = r[0].split(" ")[4]
+        if cid not in cases:
+            cases[cid] = (d["plainPyS"] == "true", d["plainS"] == "true")
+            if d["plainPyS"] != "true":
+                notpy[d["notpy"]] = notpy.get(d["notpy"], 0) + 1
+        valid = "valid=true" in r[1]
+        st["documents"] += 1
+        st["valid"] += int(valid)
+        if d["plainPyS"] != "true":
+            continue
+        st["fragment_documents"] += 1
+        st["fragment_valid"] += int(valid)
+        if d["src"] != "true":
+            continue
+        st["fragment_in_srcDen"] += 1
+        if d["pyden"] == "true":
+            st["fragment_in_srcDen_and_pyDen_real"] += 1
+        else:
+            b_fail.append((r, m))
+        if d["mpyden"] != "true":
+            m_fail.append((r, m))
+        if d["plainS"] == "true":
+            st["common_fragment_in_srcDen"] += 1
+            if d["den"] == "true" and d["pyden"] == "true":
+                st["common_fragment_in_srcDen_and_den_and_pyDen_real"] += 1
+            elif d["den"] != "true":
+                g_fail.append((r, m))
+    def payload(kind, broken, r, m):
+        cid = r[0].split(" ")[4]
+        return {"kind": kind, "broken": broken, "stream": "c11-src", "request": r[0], "reference_validator": r[1], "driver": m,
+                "case": case_line.get(cid, ""), "how_to_replay": "harness c11-src seed=%d n=%d docs=%d faults=%d, case %s" % (c.seed, n, docs, faults, cid)}
+    for r, m in b_fail[:3]:
+        c.violation(payload("theorem-instance-fails-on-real-passes", "C11_pass_widening_struct_partial: PlainPyS ∧ srcDen hold on the real pre-chain IR but the document is not in `pyDen` of the REAL post-Python-chain IR (pass model and real pass disagree)", r, m))
+    for r, m in g_fail[:3]:
+        c.violation(payload("theorem-instance-fails-on-real-passes", "C01_pass_widening_struct_partial (hypothesis of C11_source_agree_partial): PlainS ∧ srcDen hold but the document is not in `den` of the REAL post-Go-chain IR", r, m))
+    for r, m in m_fail[:3]:
+        c.violation(payload("theorem-instance-fails-on-model", "C11_pass_widening_struct_partial evaluated by the driver on the pass MODELS' output is false", r, m), found_input=False)
+    npy = len([1 for v in cases.values() if v[0]])
+    nboth = len([1 for v in cases.values() if v[0] and v[1]])
+    c.oblige("c11-src: PlainPyS ∧ srcDen ⇒ pyDen on the REAL post-Python-chain IR (%d documents of %d cases in the fragment; common fragment with Go: %d documents of %d cases, all in `den` of the real Go IR too)"
+             % (st["fragment_in_srcDen"], npy, st["common_fragment_in_srcDen"], nboth), not b_fail and not m_fail and not g_fail)
+    c.oblige("c11-src is not vacuous (cases in the fragment, documents in srcDen)", npy >= 10 and st["fragment_in_srcDen"] >= 100,
+             "cases in PlainPyS %d, documents in srcDen %d" % (npy, st["fragment_in_srcDen"]))
+    c.count("c11-src", len(rows), [r[0] for r in rows if r[0].startswith("srcpy ") and r[0].count("(") >= 6],
+            samples=[{"stream": "c11-src", "request": r[0][:400], "impl": r[1][:200], "oracle": "ok"} for r in rows if r[0].startswith("srcpy ")][:2])
+    c.cov["disagreements_checked"] += st["fragment_in_srcDen"]
+    c.cov["pass_widening"] = dict(st, cases=len(cases), cases_in_PlainPyS=npy, cases_in_PlainPyS_and_PlainS=nboth,
+                                  not_in_fragment_first_reason=notpy,
+                                  rate="%d/%d" % (st["fragment_in_srcDen_and_pyDen_real"], st["fragment_in_srcDen"]))
+# ---- END pass widening tie for the Python chain ------------------------------------------------------
+
+
 def main():
     c = Check("C11")
     # known findings: /verif/known_findings.json only (Check loads the entries of this property)
@@ -129,7 +236,8 @@ def main():
     ]
     hb, err = build_go("verifharness", "harness", files=HARNESS_FILES, tag="c11")
     c.oblige("harness (lab + c11 stream) builds against the repository working tree", hb is not None, err[-3000:])
-    c.lean_obligations(THEOREMS)
+    pw_regen(c)                                  # pass widening block
+    c.lean_obligations(THEOREMS + PW_THEOREMS)   # + pass widening theorems
     if hb is None:
         c.finish("lake build", "n/a")
     quick = c.tier == "quick"
@@ -226,6 +334,8 @@ def main():
         for r in rows:
             if r[0] != "-":
                 print("\t".join(r)[:1500])
+    else:
+        pw_tie(c)                                # pass widening block
     c.finish("cd /verif/lean && lake build Cog.Props.C11 drv && lake env lean <#print axioms of the C11 theorems>",
              "Src terms (every construct of the grammar) rendered to JSON Schema, OpenAPI and CUE, real pipeline run, generated Python imported and generated Go compiled; per case ~30 source-valid documents (reference-validated) through real from_json/to_json and real json.Unmarshal/Marshal; oracle A = Python output JSON-equal to the document (no member added), oracle B = Python output equals Go output; the Lean model must predict Python's reply and the agreement verdict; every oracle failure must match a known finding and lie outside the proved fragment; non-trivial = document with >= 6 nested values")
 
